@@ -10,7 +10,7 @@ import vlib
 
 PROPS = ["C06", "C07"]
 DRIVERS = ["keyed"]
-C06 = ["WantedKeyLost", "SetKeyResult", "RemoveKeyResult", "SyncKeysResult", "GetKeyResult", "GetKeysResult",
+C06 = ["WantedKeyLost", "RefKeyLost", "SetKeyResult", "RemoveKeyResult", "SyncKeysResult", "GetKeyResult", "GetKeysResult",
        "GetKeysDataResult", "AddKeyRefResult", "RcRemoveKeyResult"]
 C07 = ["Overlap", "LiveAfterRemove", "LiveAfterClear", "StartedAfterRemove", "StartedAfterClear", "RetryLost"]
 PROPERTY_OF = dict([(n, "C06") for n in C06] + [(n, "C07") for n in C07])
@@ -140,9 +140,9 @@ def fam(prop):
                 # which TLC loads as a whole, below ~60 MB)
                 # C06 also judges its order-insensitive clause (a re-requested key stays present) on controlled
                 # interleavings where timer callbacks are separate steps (mode m1)
-                modes={"quick": ([("m1x", "m1", 3000)] if seq else []),
+                modes={"quick": ([("m1x", "m1", 3000), ("rcburst", "rcburst", 2500, 4)] if seq else []),
                        "thorough": [("r%d" % i, ("seq" if seq else "m1") + ",v%d" % i, 10000) for i in range(1, 9)]
-                                   + ([("m1x%d" % i, "m1,v%d" % i, 10000) for i in range(1, 5)] if seq else [])},
+                                   + ([("m1x%d" % i, "m1,v%d" % i, 10000) for i in range(1, 5)] + [("rcburst", "rcburst", 60000, 4)] if seq else [])},
                 x_specs=["keyed/Keyed.tla"], p_monitor="keyed/KeyedP.tla",
                 assumptions=["KeyedP encodes the statement (interpretation notes at the top of specs/keyed/KeyedP.tla)",
                              "X models the code as it is at the pinned commit: " + ", ".join("%s=%s" % kv for kv in sorted(FIXES.items()))])
